@@ -87,6 +87,21 @@ def _length_check(ctx, rule, fn):
                  % (short, 'Err' if ok else 'NOT an error', 'dominates' if dom else 'does NOT dominate'), tm['span'],
                  key=b.name + '|%s|length' % rule)
     ctx.floor('length comparisons in ' + fn.split('::')[-1], n, 1)
+    # a `take(bound)` in front of the read must let the whole requested length through: bound = requested + k, k >= 0.  A bound
+    # derived from anything else (say the capped preallocation) turns every larger well-formed payload into an error (seed C07-h)
+    import poly as P
+    for c in q.calls(b, 'std::io::Read::read_to_end'):
+        for x in walk(q.arg_terms(c)[0]):
+            if x[0] == 'call' and x[1] == 'std::io::Read::take':
+                bound = P.poly(x[2][1])
+                want = P.poly(('param', 2, None))
+                rest = dict(bound)
+                for k_, v_ in want.items():
+                    rest[k_] = rest.get(k_, 0) - v_
+                rest = {k_: v_ for k_, v_ in rest.items() if v_ != 0}
+                okb = all(k_ == () for k_ in rest) and rest.get((), 0) >= 0
+                ctx.inst(rule, fn.split('::')[-1] + '#take-bound', okb, '%s bounds the reader with take(%s); must be the requested length (+ a non-negative constant)'
+                         % (fn.split('::')[-1], q.show(x[2][1])[:80]), c.span, key=b.name + '|%s|take-bound' % rule)
 
 
 def outer_reader_calls(ctx, rule):
